@@ -8,7 +8,7 @@ use serde_json::json;
 use std::collections::{BTreeMap, BTreeSet};
 
 pub fn std_faults() -> Vec<Fault> {
-    vec![Fault::Drop, Fault::DupNow, Fault::DupLate(2), Fault::DupLate(6), Fault::Delay(1), Fault::Delay(3)]
+    vec![Fault::Drop, Fault::DropBurst(2), Fault::DropBurst(3), Fault::DupNow, Fault::DupLate(2), Fault::DupLate(6), Fault::Delay(1), Fault::Delay(3)]
 }
 
 pub fn wl(name: &str, chans: Vec<ChanSpec>, msgs: Vec<Msg>) -> Workload {
@@ -152,6 +152,29 @@ pub fn c12_workloads(thorough: bool) -> Vec<(Workload, usize)> {
         let cs = vec![chan(0, false, None, None, true)];
         let msgs = vec![m(A, 0, 0, 0, 2500), m(A, 0, 1, 0, 2600), m(A, 0, 2, 0, 3), m(A, 0, 0, 1, 4)];
         v.push((wl("U-3senders-unordered-frag", cs, msgs), 1));
+    }
+    // partially reliable with one retransmission, fragmented messages followed by more traffic:
+    // abandonment of a message some of whose fragments were already gap-acked
+    for (name, ordered) in [("PU1", false), ("PO1", true)] {
+        let cs = vec![chan(0, ordered, Some(1), None, true)];
+        let mut msgs = vec![m(A, 0, 0, 0, 2844), m(A, 0, 0, 5, 2400)];
+        for i in 0..6 {
+            msgs.push(m(A, 0, 0, 60 + i * 45, 40 + i as usize));
+        }
+        // PR-SCTP behaviour depends on the numeric relation of the two peers' TSN spaces (see the
+        // known finding), so both relations are forced rather than left to the seed
+        for (rel, forced) in [("tsnA<tsnB", [0x1111_1111u32, 1_000, 0x2222_2222, 2_000_000_000]), ("tsnA>tsnB", [0x1111_1111, 2_000_000_000, 0x2222_2222, 1_000])] {
+            let mut w = wl(&format!("F-{name}-frag-then-traffic-{rel}"), cs.clone(), msgs.clone());
+            w.forced = Some(forced);
+            if !thorough {
+                // quick: double faults over a reduced alphabet (a fragment and its retransmission lost)
+                let mut w2 = w.clone();
+                w2.name = format!("F-{name}-frag-then-traffic-{rel}-drop2");
+                w2.faults = vec![Fault::Drop, Fault::Delay(1)];
+                v.push((w2, 2));
+            }
+            v.push((w, 1));
+        }
     }
     // early send before Open, ordered reliable + unordered
     {
@@ -303,17 +326,19 @@ pub fn c13_workloads(thorough: bool) -> Vec<(Workload, usize)> {
         v.push((w, if thorough { b.max(2) } else { 1 }));
     }
     // small receive windows with a bulk transfer; SACKs held back force zero window
-    for (rwnd, total) in [(4096usize, 24_000usize), (16 * 1024, 60_000), (64 * 1024, 200_000)] {
+    for (rwnd, total) in [(4096usize, 24_000usize), (8192, 30_000), (16 * 1024, 60_000), (64 * 1024, 200_000)] {
         let mut w = wl(&format!("Z-rwnd{rwnd}-bulk{total}"), vec![ChanSpec::reliable_ordered(0)], (0..(total / 4000)).map(|i| m(A, 0, 0, i as u64, 4000)).collect());
         w.rwnd = Some(rwnd);
         w.record_wire = true;
         w.linger_ms = 0;
         w.horizon_ms = 30_000;
-        w.faults = vec![Fault::Drop, Fault::Delay(3), Fault::DupLate(6)];
-        if rwnd > 4096 && !thorough {
+        // burst losses (2, 3, 5 consecutive datagrams of one sender) make several chunks eligible for
+        // retransmission in one round while out-of-order data shrinks the advertised window
+        w.faults = vec![Fault::Drop, Fault::DropBurst(2), Fault::DropBurst(3), Fault::DropBurst(5), Fault::Delay(3), Fault::DupLate(6)];
+        if rwnd > 8192 && !thorough {
             continue;
         }
-        v.push((w, if thorough { 1 } else { 1 }));
+        v.push((w, if thorough && rwnd <= 8192 { 2 } else { 1 }));
     }
     // packet-size boundary: payload sizes whose DATA chunk, bundled with a SACK (16 bytes) or with a
     // second DATA chunk, lands within a few bytes of the 1200-byte limit, in both directions at once
@@ -533,7 +558,7 @@ pub struct PropSpec {
 pub fn spec(id: &str) -> PropSpec {
     match id {
         "C01" => PropSpec { id: "C01", workloads: c01_workloads, oracle: c01_oracle,
-            rule: "every fault history with <= bound non-default choices {drop,dup,duplate2,duplate6,delay1,delay3} over every post-handshake datagram of each workload; oracle: delivered is a byte-exact prefix of submitted on every reliable ordered channel, equal at the horizon unless a close was reported" },
+            rule: "every fault history with <= bound non-default choices {drop, burst loss of 2 or 3 datagrams, dup, duplate2, duplate6, delay1, delay3} over every post-handshake datagram of each workload; oracle: delivered is a byte-exact prefix of submitted on every reliable ordered channel, equal at the horizon unless a close was reported" },
         "C12" => PropSpec { id: "C12", workloads: c12_workloads, oracle: c12_oracle,
             rule: "same fault alphabet over workloads covering every channel type (reliable/rexmit/timed x ordered/unordered, negotiated and in-band), sizes 0..70000, 1-3 channels, 1-3 concurrent senders; oracle: multiset inclusion of delivered in submitted per channel, per-sender order on ordered channels, completeness on reliable channels, Open once before first message, Close at most once, in-band parameters intact" },
         "C13" => PropSpec { id: "C13", workloads: c13_workloads, oracle: c13_monitor,
